@@ -21,7 +21,7 @@ def classify(op, c, m):
     return "diff"
 
 
-def exec_ops(binp, d, ops_lines):
+def exec_ops(binp, d, ops_lines, leaks=False):
     """run the harness in replay mode on a list of op lines; returns (rc, san, model_in, c, m, oracle)"""
     os.makedirs(d, exist_ok=True)
     p, mi, c, m, orc = [os.path.join(d, x) for x in ("ops.txt", "min.txt", "c.out", "m.out", "orc.txt")]
@@ -29,7 +29,9 @@ def exec_ops(binp, d, ops_lines):
     for f in (mi, c, orc):
         if os.path.exists(f):
             os.remove(f)
-    r = run([binp, "--replay", p, mi, c, orc], env=dict(os.environ, ASAN_OPTIONS="detect_leaks=0"))
+    # leaks=True: leaks count in the replay as they do in the generating run (a leaking error path must stay reproducible while
+    # a harness abort is shrunk and in the replay text)
+    r = run([binp, "--replay", p, mi, c, orc], env=dict(os.environ, ASAN_OPTIONS="detect_leaks=1:abort_on_error=0" if leaks else "detect_leaks=0"))
     if not os.path.exists(mi):
         return r.returncode, r.stdout[-3000:], [], [], [], []
     run_model(ENGINE, mi, m)
@@ -123,7 +125,7 @@ def failing_pred(binp, workdir, want):
     d = os.path.join(workdir, "shrink")
 
     def fails(sub):
-        rc, san, mi, c, m, orc = exec_ops(binp, d, sub)
+        rc, san, mi, c, m, orc = exec_ops(binp, d, sub, leaks=(want == "diff"))
         if want == "diff":
             if rc != 0:
                 return True
@@ -136,7 +138,7 @@ def failing_pred(binp, workdir, want):
 
 def replay_text(binp, workdir, ops, header):
     d = os.path.join(workdir, "shrink")
-    rc, san, mi, c, m, orc = exec_ops(binp, d, ops)
+    rc, san, mi, c, m, orc = exec_ops(binp, d, ops, leaks=True)
     out = ["# engine diff: %s" % header,
            "# replay: <harness diff> --replay <ops> <model-in> <c-out> <oracle>   (ops = the lines between BEGIN/END OPS)",
            "# BEGIN OPS"] + list(ops) + ["# END OPS", "# model-in line | hwloc (C) | Lean model"]
